@@ -6,3 +6,24 @@ pub mod comp;
 pub mod proto;
 
 pub use vm::VerifVM;
+
+use std::sync::OnceLock;
+
+/// Fixed side-metadata base address used by the unit components (48 TiB; far from heap and stack).
+pub const SIDE_METADATA_BASE: usize = 0x3000_0000_0000;
+
+static MMTK_INSTANCE: OnceLock<Box<mmtk::MMTK<VerifVM>>> = OnceLock::new();
+
+/// Some unit components need the global state an MMTk instance sets up (side-metadata base
+/// address, mmapper, VM map). Create one NoGC instance lazily; no GC thread is ever started.
+pub fn ensure_mmtk() -> &'static mmtk::MMTK<VerifVM> {
+    MMTK_INSTANCE.get_or_init(|| {
+        let mut b = mmtk::MMTKBuilder::new_no_env_vars();
+        let plan = std::env::var("VERIF_PLAN").unwrap_or_else(|_| "NoGC".to_string());
+        assert!(b.set_option("plan", &plan));
+        assert!(b.set_option("gc_trigger", "FixedHeapSize:67108864"));
+        // a fixed side-metadata base makes every metadata address deterministic (the models use it)
+        assert!(b.set_option("side_metadata_base_address", &SIDE_METADATA_BASE.to_string()));
+        mmtk::memory_manager::mmtk_init::<VerifVM>(&b)
+    })
+}
